@@ -1,44 +1,43 @@
-// ---- specs/range_spec.rs: RFC 7233 byte-range resolution, written from the statement of C03 (not from the code) ----
+// ---- specs/range_spec.rs: RFC 7233 byte-range resolution over the BYTES of the header value, written from the
+// statement of C03 and the ABNF (RFC 7233 2.1, list rule of RFC 7230 7), not from the code ----
+//   byte-ranges-specifier = bytes-unit "=" byte-range-set          bytes-unit = "bytes"
+//   byte-range-set  = 1#( byte-range-spec / suffix-byte-range-spec )     1#element => element *( OWS "," OWS element )
+//   byte-range-spec = first-byte-pos "-" [ last-byte-pos ]               suffix-byte-range-spec = "-" suffix-length
+//   first-byte-pos = last-byte-pos = suffix-length = 1*DIGIT  (any number of digits: values are natural numbers here)
 pub mod range_spec {
     use vstd::prelude::*;
     use crate::strs::*;
     use std::ops::Range;
 
-    /// One element of the byte-range-set: `-n`, `first-`, `first-last`.
-    pub enum Form { Suffix(u64), From(u64), Closed(u64, u64) }
+    /// One element of the byte-range-set: `-n`, `first-`, `first-last`, with unbounded numbers.
+    pub enum Form { Suffix(nat), From(nat), Closed(nat, nat) }
 
-    /// `first-byte-pos`, `last-byte-pos`, `suffix-length` are `1*DIGIT` (RFC 7233 2.1) that fit in 64 bits.  ASSUMED about
-    /// std: `u64::from_str` accepts exactly an optional `+` followed by `1*DIGIT` within range (its documented grammar),
-    /// so a position is what `from_str` accepts minus the values with a sign.
-    pub open spec fn sp_pos(s: Str) -> Option<u64> { if sp_starts_with(s, "+"@) { None } else { sp_u64(s) } }
-
-    /// Lexical shape of one list element over the assumed `str` primitives: OWS trimmed; no `-` or an unparseable
-    /// number means the whole header is outside the grammar.
-    pub open spec fn lex(e: Str) -> Option<Form> {
-        let r = sp_trim_start(e);
-        match sp_find(r, '-') {
+    /// An element with the OWS around it removed: `a "-" b` where a and b contain no `-` (digits do not), so the cut is at
+    /// the first `-`.
+    pub open spec fn elem_form(t: Seq<u8>) -> Option<Form> {
+        match first_at(t, 0, 0x2du8) {
             None => None,
-            Some(h) => if h == 0 {
-                match sp_pos(sp_slice(r, 1, sp_len(r))) { Some(n) => Some(Form::Suffix(n)), None => None }
-            } else {
-                match sp_pos(sp_slice(r, 0, h)) {
-                    None => None,
-                    Some(f) => if sp_len(r) > h + 1 {
-                        match sp_pos(sp_slice(r, (h + 1) as usize, sp_len(r))) { None => None, Some(l) => Some(Form::Closed(f, l)) }
-                    } else { Some(Form::From(f)) }
-                }
+            Some(h) => {
+                let a = t.subrange(0, h);
+                let b = t.subrange(h + 1, t.len() as int);
+                if a.len() == 0 { if all_digits(b) { Some(Form::Suffix(dec(b))) } else { None } }
+                else if !all_digits(a) { None }
+                else if b.len() == 0 { Some(Form::From(dec(a))) }
+                else if all_digits(b) { Some(Form::Closed(dec(a), dec(b))) } else { None }
             }
         }
     }
+    /// A list element as it stands between two commas: OWS is allowed on both sides of the comma.
+    pub open spec fn lex(e: Str) -> Option<Form> { elem_form(trim_b(e.b(), is_ows())) }
 
     /// C03: `first-last` selects first..=min(last, L-1), `first-` selects first..=L-1, `-n` selects the final
     /// min(n, L) bytes; specs that select nothing (first >= L, n = 0, L = 0, last < first) are dropped.
     /// The result is the half-open interval (start, end).
     pub open spec fn resolve(f: Form, l: u64) -> Option<(int, int)> {
         match f {
-            Form::Suffix(n) => { let m = if n <= l { n } else { l }; if m == 0 { None } else { Some((l - m, l as int)) } }
+            Form::Suffix(n) => { let m: int = if n <= l { n as int } else { l as int }; if m == 0 { None } else { Some((l - m, l as int)) } }
             Form::From(a) => if a < l { Some((a as int, l as int)) } else { None },
-            Form::Closed(a, b) => if a < l && a <= b { Some((a as int, (if b <= l - 1 { b } else { (l - 1) as u64 }) + 1)) } else { None },
+            Form::Closed(a, b) => if a < l && a <= b { Some((a as int, (if b <= l - 1 { b as int } else { l - 1 }) + 1)) } else { None },
         }
     }
 
@@ -56,17 +55,27 @@ pub mod range_spec {
 
     pub open spec fn view_ranges(v: Seq<Range<u64>>) -> Seq<(int, int)> { Seq::new(v.len(), |i: int| (v[i].start as int, v[i].end as int)) }
 
+    /// The strict list grammar has no OWS before the first element or after the last one (`bytes= 0-1`, `bytes=0-1 `);
+    /// a tolerant recipient may still accept such a value, so both answers are allowed there.
+    pub open spec fn strict_edges(es: Seq<Str>) -> bool {
+        es.len() >= 1 && lead(es[0].b(), is_ows(), 0) == 0 && trail(es.last().b(), is_ows(), es.last().b().len() as int, 0) == es.last().b().len()
+    }
+
     /// What `range::parse` must return for a Range header value (None = header absent or not visible ASCII).
     pub open spec fn parse_spec(range: Option<Str>, len: u64, none: bool, unsat: bool, sat: Option<Seq<Range<u64>>>) -> bool {
         match range {
             None => none,
-            Some(h) => match sp_strip_prefix(h, "bytes="@) {
-                None => none,
-                Some(bytes) => {
-                    let es = sp_split(bytes, ',');
-                    if !all_lex(es, es.len() as int) { none }
-                    else if sel(es, es.len() as int, len).len() == 0 { unsat }
-                    else { sat matches Some(v) && view_ranges(v) =~= sel(es, es.len() as int, len) }
+            Some(h) => {
+                let unit = h.b().subrange(0, if h.b().len() < 6 { h.b().len() as int } else { 6 });
+                if !eq_nocase_b(unit, lit("bytes="@)) { none }                                        // another unit: ignored
+                else {
+                    let es = sp_split(mk(h.b().subrange(6, h.b().len() as int)), ',');
+                    let exact = if !all_lex(es, es.len() as int) { none }                            // outside the grammar: ignored
+                        else if sel(es, es.len() as int, len).len() == 0 { unsat }
+                        else { sat matches Some(v) && view_ranges(v) =~= sel(es, es.len() as int, len) };
+                    // range units are case-insensitive (ABNF literal), but a recipient that only knows `bytes` may ignore `Bytes=`;
+                    // likewise for OWS at the two ends of the set
+                    exact || (none && (!(unit =~= lit("bytes="@)) || !strict_edges(es)))
                 }
             }
         }
